@@ -65,7 +65,7 @@ PROPS["C18"] = {
                   T("TestC18Commands", {"checks": 500, "shards": 8}, {"checks": 4000, "shards": 16})],
     }, {
         "pkg": "command", "fuzz": True, "thorough_only": True,
-        "tests": [F("FuzzC18Ports", "60s"), F("FuzzC18Rate", "60s"), F("FuzzC18Flags", "45s"), F("FuzzC18Exclude", "60s")],
+        "tests": [F("FuzzC18Ports", "60s"), F("FuzzC18Rate", "60s"), F("FuzzC18Flags", "45s"), F("FuzzC18Exclude", "60s"), F("FuzzC18Payload", "60s")],
     }],
 }
 
@@ -81,6 +81,9 @@ PROPS["C20"] = {
         "tests": [T("TestC20Exhaustive", {"checks": 1, "env": {"C20_LEN": 3}}, {"checks": 1, "env": {"C20_LEN": 5}, "timeout": 3000}),
                   T("TestC20Random", {"checks": 600, "shards": 4, "env": {"C20_MAXU": 10}},
                     {"checks": 10000, "shards": 16, "env": {"C20_MAXU": 40}})],
+    }, {
+        "pkg": "pkg/packet", "fuzz": True, "thorough_only": True,
+        "tests": [F("FuzzC20Script", "90s")],
     }],
 }
 
@@ -94,6 +97,9 @@ PROPS["C14"] = {
                   T("TestC14Unique", {"checks": 800, "shards": 2}, {"checks": 5000, "shards": 8}),
                   T("TestC14ConcurrentErrors", {"checks": 24, "shards": 4}, {"checks": 400, "shards": 8}),
                   T("TestC14UniqueLarge", {"checks": 30, "shards": 2}, {"checks": 300, "shards": 8})],
+    }, {
+        "pkg": "command/log", "fuzz": True, "thorough_only": True,
+        "tests": [F("FuzzC14JSON", "90s")],
     }],
 }
 
@@ -254,6 +260,8 @@ PROPS["C19"] = {
 
 PROPS["C12"] = {
     "level": "fault_enumeration",
+    "needs_sx_binary": True,
+    "kit_tools": ["nsrun"],
     "extra_units_note": "TestC12RealSocketClose runs against the real AF_PACKET adapter (no virtual wire) in a child process inside a network namespace",
     "exhaustive_when_all": False,
     "assumptions": ["cancel points: synchronous cancellation of the parent context inside the k-th probe start / record write / error log (application engine), and the real SIGINT sent from inside the k-th frame write for every k of a run (packet commands)",
@@ -267,6 +275,9 @@ PROPS["C12"] = {
                   T("TestC12Socks", {"checks": 4, "shards": 4}, {"checks": 30, "shards": 8})] + [
                   {"name": "TestC12BigSpace", "variant": "big%d" % i, "quick": {"checks": 1, "env": {"C12_BIG": i}}, "thorough": {"checks": 1, "env": {"C12_BIG": i}}}
                   for i in range(4)],
+    }, {
+        "pkg": "command",
+        "tests": [T("TestC12Netns", {"checks": 8, "shards": 8}, {"checks": 150, "shards": 12})],
     }, {
         "pkg": "pkg/packet/afpacket", "real_adapter": True,
         "tests": [T("TestC12RealSocketClose", {"checks": 12, "shards": 4}, {"checks": 120, "shards": 8})],
